@@ -1,6 +1,7 @@
 import Gv.Sexp
 import Gv.Model.Gen
 import Gv.Model.Emit
+import Gv.Model.Sym
 import Gv.Driver.Settings
 
 namespace Gv.Driver
@@ -145,6 +146,24 @@ def methodOut (m : GenMethod) : Sexp :=
   mkList "method" [strS m.name, .atom (toString m.explicit), .atom (toString m.returnError),
     mkList "args" (m.args.map (fun a => .atom (roleS a.use)))]
 
+/-- the emitted code read back by the harness (`(lifted (t NAME TERM) …)`) against the plan's own term, both normalised -/
+def symCompare (gc : GenCase) (ms : List GenMethod) (req : Sexp) : List Sexp :=
+  match field? req "lifted" with
+  | none => []
+  | some l =>
+    let impl : List (String × Sexp) := (args l).filterMap (fun e => match args e with | [n, t] => some (asString n, t) | _ => none)
+    let rows := ms.map (fun m =>
+      let name := String.ofList m.name
+      match impl.find? (fun p => p.1 == name) with
+      | none => mkList "missing" [.str name]
+      | some (_, t) =>
+        if head? t == some "unliftable" then mkList "unlift" [.str name, t]
+        else
+          let mt := Sym.norm (Sym.methodTerm gc.conv.env gc.conv.customs ms m)
+          let it := Sym.norm t
+          if mt == it then mkList "eq" [.str name] else mkList "diff" [.str name, mt, it])
+    [mkList "sym" rows]
+
 /-- `(gen id (env ...) (conv ...) (oracles ...))` -/
 def handleGen (req : Sexp) : Sexp :=
   let gc := genCaseOf req
@@ -152,7 +171,8 @@ def handleGen (req : Sexp) : Sexp :=
   | .ok ms =>
     let sorted := ms.mergeSort (fun a b => String.ofList a.name ≤ String.ofList b.name)
     let needs := Emit.methodsNeeds ms
-    mkList "ok" (sorted.map methodOut ++ [mkList "needs" [.atom (toString needs.1), mkList "wrap" (needs.2.eraseDups.map strS)]])
+    mkList "ok" (sorted.map methodOut ++ [mkList "needs" [.atom (toString needs.1), mkList "wrap" (needs.2.eraseDups.map strS)]]
+      ++ symCompare gc ms req)
   | .error d => mkList "err" [.atom (diagName d)]
 
 end Gv.Driver
